@@ -90,3 +90,45 @@ def rule_constop(crate):
     out.analysed = {"operator_arms": n}
     out.floor("operator_arms", n, 5)
     return out
+
+
+def rule_unitdtype(crate):
+    """UNITDTYPE — a derived unit is stored with SetUnitConstant, which pops a *quantity*: the checker must therefore
+    require the defining expression of `unit u = <expr>` to have a dimension type (enforce_dtype / add_dtype_constraint
+    on the deduced type) whether or not an annotation is given.  Without it `unit u = "s"` is accepted and the VM
+    panics."""
+    from hirlib import pat_variants
+
+    out = RuleOut("UNITDTYPE", "the defining expression of a derived unit is required to have a dimension type")
+    fn = crate.find_fn("typechecker::TypeChecker::elaborate_statement")
+    f = crate.file_of(fn)
+    arm = None
+    for m in walk(fn["body"]):
+        if m.get("k") == "Match" and str(m.get("src")) == "Normal":
+            for a in m["arms"]:
+                if pat_variants(a["pat"], "crate::ast::Statement") == {"DefineDerivedUnit"}:
+                    arm = a
+    if arm is None:
+        out.error("anchor missing: DefineDerivedUnit arm of elaborate_statement")
+        return out
+    # locals bound from the result of _elaborate_inner
+    deduced = set()
+    for n in walk(arm["body"]):
+        if n.get("k") == "Let" and n.get("init") is not None and any(x.get("k") == "MethodCall" and x["name"] == "_elaborate_inner" for x in walk(n["init"])):
+            for q in walk(n["pat"]):
+                if q.get("k") == "Binding":
+                    deduced.add(q["id"])
+    calls = []
+    for n in walk(arm["body"]):
+        if n.get("k") == "MethodCall" and n["name"] in ("enforce_dtype", "add_dtype_constraint") and n["args"]:
+            if any(y.get("k") == "Path" and y["res"].get("r") == "local" and y["res"]["id"] in deduced for y in walk(n["args"][0])):
+                calls.append(n)
+    af, al = crate.loc(fn, arm["pat"])
+    if not deduced:
+        out.error("anchor missing: result of _elaborate_inner in the DefineDerivedUnit arm")
+    elif calls:
+        out.ok("elaborate_statement:DefineDerivedUnit:dtype", *crate.loc(fn, calls[0]), detail="the deduced type of the defining expression is required to be a dimension type")
+    else:
+        out.violation("elaborate_statement:DefineDerivedUnit:dtype", af, al, "the type deduced for the defining expression of a unit is never required to be a dimension type: `unit u = 's'`, `unit u = [1 m]`, `unit u = now()` are accepted and the VM panics in SetUnitConstant (`Expected quantity to be on the top of the stack`)")
+    out.analysed = {"dtype_requirements": len(calls)}
+    return out
